@@ -167,11 +167,20 @@ def worker_main(pid, tier, seed, widx, outpath, replay=None):
             if last_fail:
                 scenario = last_fail["scenario"]
                 ok, sig, detail = confirm(mod, env, scenario, known, need_all)
+                if not ok and last_fail["bad"][0][0].startswith("memory-safety/liveness:"):
+                    # a crash/assert really happened once; timing-dependent ones get more attempts before being set aside
+                    ok, sig, detail = confirm(mod, env, scenario, known, need_all, tries=10)
                 if ok:
                     path = save_violation_case(pid, json.dumps(scenario, indent=1, sort_keys=True))
                     stats["violations"].append({"signature": sig, "detail": detail[:1500], "replay": path})
                 else:
-                    stats["notes"].append("a failing scenario (%s) did not reproduce on replay; not reported" % last_fail["bad"][0][0])
+                    from vlib.common import OUT
+                    d = os.path.join(OUT, "unconfirmed", pid)
+                    os.makedirs(d, exist_ok=True)
+                    up = os.path.join(d, sha(_canon(scenario)) + ".json")
+                    with open(up, "w") as f:
+                        json.dump({"signature": last_fail["bad"][0][0], "detail": last_fail["bad"][0][1][:3000], "scenario": scenario}, f, indent=1)
+                    stats["notes"].append("a failing scenario (%s) did not reproduce on replay; not reported (kept for triage: %s)" % (last_fail["bad"][0][0], up))
     finally:
         try:
             mod.teardown(env)
